@@ -203,16 +203,16 @@ class UniformGrid(FixedGrid):
 
     def bounds_T(self, T_local, t0_local, k, T, N):
 
-        for i,e in enumerate(FixedGrid.bounds_T(self, T_local, t0_local, k, T, N)):
+        for e in FixedGrid.bounds_T(self, T_local, t0_local, k, T, N):
             yield e
-            if i==0 and k==0:
-                if self.localize_T:
-                    yield (self.min <= (T_local[0] <= self.max), {})
+        if k==0:
+            if self.localize_T:
+                yield (self.min <= (T_local[0] <= self.max), {})
+            else:
+                if self.min==0 and self.max==inf:
+                    pass
                 else:
-                    if self.min==0 and self.max==inf:
-                        pass
-                    else:
-                        yield (self.min <= (T/N <= self.max), {})
+                    yield (self.min <= (T/N <= self.max), {})
 
     def normalized(self, N):
         return list(np.linspace(0.0, 1.0, N+1))
